@@ -6,6 +6,7 @@ use crate::util::pick;
 use petgraph::data::{Build, DataMapMut, Element, FromElements};
 use petgraph::graph::{EdgeIndex, Graph, GraphError, IndexType, NodeIndex};
 use petgraph::stable_graph::StableGraph;
+use petgraph::visit::IntoNodeReferences;
 use petgraph::Direction::{Incoming, Outgoing};
 use petgraph::{Directed, EdgeType, Undirected};
 use proptest::prelude::*;
@@ -650,6 +651,23 @@ fn raw_links<Ty: EdgeType, Ix: IndexType>(g: &Graph<W, W, Ty, Ix>, m: &Model) ->
     let e = m.edges.len();
     if g.raw_nodes().len() != n || g.raw_edges().len() != e {
         return fail("C01/raw-lengths", format!("raw_nodes/raw_edges lengths ({}, {}) vs counts ({n}, {e})", g.raw_nodes().len(), g.raw_edges().len()));
+    }
+    // ExactSizeIterator: len() is exact, also after consuming from both ends
+    {
+        if g.node_indices().len() != n || g.edge_indices().len() != e || g.node_references().len() != n || g.edge_references().len() != e {
+            return fail("C01/exact-size-len", format!("len() of the whole-graph iterators vs counts ({n}, {e})"));
+        }
+        let mut it = g.edge_references();
+        it.next();
+        it.next_back();
+        if it.len() != e.saturating_sub(2) {
+            return fail("C01/exact-size-len", format!("edge_references().len() after next()+next_back() = {}, expected {}", it.len(), e.saturating_sub(2)));
+        }
+        let nw: Vec<W> = g.node_weights().copied().collect();
+        let ew: Vec<W> = g.edge_weights().copied().collect();
+        if nw.len() != n || ew.len() != e {
+            return fail("C01/weights-iter", "node_weights()/edge_weights() length".to_string());
+        }
     }
     for (i, ed) in g.raw_edges().iter().enumerate() {
         let me = m.edges[i].as_ref().unwrap();
